@@ -14,7 +14,7 @@ import re
 from collections.abc import AsyncIterator, Callable
 from contextlib import asynccontextmanager
 from datetime import date, datetime
-from email import message_from_string
+from email import message_from_bytes
 from email.message import EmailMessage
 from enum import Enum, StrEnum
 from typing import (
@@ -855,9 +855,17 @@ class IMAPClientCommand:
         # as a message structure right away (I hope this works in all cases,
         # even with draft messages.)
         #
-        self.message = message_from_string(
-            self._p_string(), policy=email.policy.SMTP
-        )
+        # NOTE: The command was decoded from the bytes the client sent us
+        #       using latin-1, so encoding it as latin-1 gives back exactly
+        #       the octets of the literal (a message may well contain 8bit
+        #       data which a `str` based message can not be flattened with.)
+        #
+        literal = self._p_string()
+        try:
+            msg_bytes = literal.encode("latin-1")
+        except UnicodeEncodeError:
+            msg_bytes = literal.encode("utf-8")
+        self.message = message_from_bytes(msg_bytes, policy=email.policy.SMTP)
         # XXX Remove this after we are sure our MHMessage -> EmailMessage
         #     conversion.
         # self.message = mailbox.MHMessage(self._p_string())
